@@ -339,6 +339,20 @@ module Pos =
              | XO _ -> Npos XH
              | _ -> N0)
 
+  (** val testbit : positive -> n -> bool **)
+
+  let rec testbit p n0 =
+    match p with
+    | XI p0 -> (match n0 with
+                | N0 -> true
+                | Npos n1 -> testbit p0 (pred_N n1))
+    | XO p0 -> (match n0 with
+                | N0 -> false
+                | Npos n1 -> testbit p0 (pred_N n1))
+    | XH -> (match n0 with
+             | N0 -> true
+             | Npos _ -> false)
+
   (** val iter_op : ('a1 -> 'a1 -> 'a1) -> positive -> 'a1 -> 'a1 **)
 
   let rec iter_op op p a =
@@ -411,6 +425,13 @@ module N =
     | Npos p -> (match m with
                  | N0 -> n0
                  | Npos q -> Pos.ldiff p q)
+
+  (** val testbit : n -> n -> bool **)
+
+  let testbit a n0 =
+    match a with
+    | N0 -> false
+    | Npos p -> Pos.testbit p n0
 
   (** val to_nat : n -> nat **)
 
@@ -651,6 +672,17 @@ module Z =
   let modulo a b =
     let (_, r) = div_eucl a b in r
 
+  (** val odd : z -> bool **)
+
+  let odd = function
+  | Z0 -> false
+  | Zpos p -> (match p with
+               | XO _ -> false
+               | _ -> true)
+  | Zneg p -> (match p with
+               | XO _ -> false
+               | _ -> true)
+
   (** val div2 : z -> z **)
 
   let div2 = function
@@ -659,6 +691,17 @@ module Z =
                | XH -> Z0
                | _ -> Zpos (Pos.div2 p))
   | Zneg p -> Zneg (Pos.div2_up p)
+
+  (** val testbit : z -> z -> bool **)
+
+  let testbit a = function
+  | Z0 -> odd a
+  | Zpos p ->
+    (match a with
+     | Z0 -> false
+     | Zpos a0 -> Pos.testbit a0 (Npos p)
+     | Zneg a0 -> negb (N.testbit (Pos.pred_N a0) (Npos p)))
+  | Zneg _ -> false
 
   (** val shiftl : z -> z -> z **)
 
@@ -3899,6 +3942,328 @@ let rec rops_ok mn mx ops pos =
      | RSet (k, _) ->
        (&&) ((&&) (Z.leb mn k) (Z.leb k mx)) (rops_ok mn mx rest pos)
      | _ -> false)
+
+type xop =
+| XReg of z * z
+| XCell of z
+| XSlot of z
+| XImm of z
+
+type xins =
+| XMov of xop * xop
+| XAdd of xop * xop
+| XSub of xop * xop
+| XInc of xop
+| XDec of xop
+| XImul2 of xop * xop
+| XImul3 of xop * xop * z
+| XLea of z * z * z option * z
+
+(** val areg : z -> z **)
+
+let areg r =
+  Z.add (Z.mul (Zpos (XO (XO XH))) r) (Zpos XH)
+
+(** val acell : z -> z **)
+
+let acell k =
+  Z.add (Z.mul (Zpos (XO (XO XH))) k) (Zpos (XO XH))
+
+(** val aslot : z -> z **)
+
+let aslot t0 =
+  Z.add (Z.mul (Zpos (XO (XO XH))) t0) (Zpos (XI XH))
+
+type amap0 = (z * expr) list
+
+(** val alook : z -> amap0 -> expr -> expr **)
+
+let rec alook k l dflt =
+  match l with
+  | [] -> dflt
+  | p :: l' -> let (k', v) = p in if Z.eqb k' k then v else alook k l' dflt
+
+type sst = { sr : amap0; sc : amap0; ss : amap0 }
+
+(** val sst0 : sst **)
+
+let sst0 =
+  { sr = []; sc = []; ss = [] }
+
+(** val sget_r : sst -> z -> expr **)
+
+let sget_r s r =
+  alook r s.sr (e_var (areg r))
+
+(** val sget_c : sst -> z -> expr **)
+
+let sget_c s k =
+  alook k s.sc (e_var (acell k))
+
+(** val sget_s : sst -> z -> expr **)
+
+let sget_s s t0 =
+  alook t0 s.ss (e_var (aslot t0))
+
+(** val size_ok : z -> bool **)
+
+let size_ok sz =
+  (||)
+    ((||)
+      ((||) (Z.eqb sz (Zpos (XO (XO (XO XH)))))
+        (Z.eqb sz (Zpos (XO (XO (XO (XO XH)))))))
+      (Z.eqb sz (Zpos (XO (XO (XO (XO (XO XH))))))))
+    (Z.eqb sz (Zpos (XO (XO (XO (XO (XO (XO XH))))))))
+
+(** val sread : z -> sst -> xop -> expr option **)
+
+let sread w s = function
+| XReg (r, sz) ->
+  if (&&) (size_ok sz) (Z.leb w sz) then Some (sget_r s r) else None
+| XCell k -> Some (sget_c s k)
+| XSlot t0 -> Some (sget_s s t0)
+| XImm v -> Some (e_val (Z.modulo v (Z.pow (Zpos (XO XH)) w)))
+
+(** val swrite : z -> sst -> xop -> expr -> z option -> sst option **)
+
+let swrite w s o v const_src =
+  match o with
+  | XReg (r, sz) ->
+    if (&&) (size_ok sz) (Z.leb w sz)
+    then Some { sr = ((r, v) :: s.sr); sc = s.sc; ss = s.ss }
+    else (match const_src with
+          | Some c ->
+            if (&&)
+                 ((&&) (Z.eqb sz (Zpos (XO (XO (XO (XO (XO XH)))))))
+                   (Z.leb Z0 c))
+                 (Z.ltb c
+                   (Z.pow (Zpos (XO XH)) (Zpos (XO (XO (XO (XO (XO XH))))))))
+            then Some { sr = ((r,
+                   (e_val (Z.modulo c (Z.pow (Zpos (XO XH)) w)))) :: s.sr);
+                   sc = s.sc; ss = s.ss }
+            else None
+          | None -> None)
+  | XCell k -> Some { sr = s.sr; sc = ((k, v) :: s.sc); ss = s.ss }
+  | XSlot t0 -> Some { sr = s.sr; sc = s.sc; ss = ((t0, v) :: s.ss) }
+  | XImm _ -> None
+
+(** val sstep : z -> sst -> xins -> sst option **)
+
+let sstep w s = function
+| XMov (d, src) ->
+  (match sread w s src with
+   | Some v -> swrite w s d v (match src with
+                               | XImm c -> Some c
+                               | _ -> None)
+   | None -> None)
+| XAdd (d, src) ->
+  (match sread w s d with
+   | Some a ->
+     (match sread w s src with
+      | Some b -> swrite w s d (e_add w a b) None
+      | None -> None)
+   | None -> None)
+| XSub (d, src) ->
+  (match sread w s d with
+   | Some a ->
+     (match sread w s src with
+      | Some b -> swrite w s d (e_add w a (e_neg w b)) None
+      | None -> None)
+   | None -> None)
+| XInc d ->
+  (match sread w s d with
+   | Some a ->
+     swrite w s d
+       (e_add w a (e_val (Z.modulo (Zpos XH) (Z.pow (Zpos (XO XH)) w)))) None
+   | None -> None)
+| XDec d ->
+  (match sread w s d with
+   | Some a ->
+     swrite w s d
+       (e_add w a
+         (e_neg w (e_val (Z.modulo (Zpos XH) (Z.pow (Zpos (XO XH)) w))))) None
+   | None -> None)
+| XImul2 (d, src) ->
+  (match sread w s d with
+   | Some a ->
+     (match sread w s src with
+      | Some b -> swrite w s d (e_mul w a b) None
+      | None -> None)
+   | None -> None)
+| XImul3 (d, src, i0) ->
+  (match sread w s src with
+   | Some b ->
+     swrite w s d (e_mul w b (e_val (Z.modulo i0 (Z.pow (Zpos (XO XH)) w))))
+       None
+   | None -> None)
+| XLea (d, b, idx, disp) ->
+  let vb0 = sget_r s b in
+  let vi = match idx with
+           | Some x -> sget_r s x
+           | None -> [] in
+  swrite w s (XReg (d, (Zpos (XO (XO (XO (XO (XO (XO XH)))))))))
+    (e_add w (e_add w vb0 vi)
+      (e_val (Z.modulo disp (Z.pow (Zpos (XO XH)) w)))) None
+
+(** val srun : z -> xins list -> sst -> sst option **)
+
+let rec srun w code s =
+  match code with
+  | [] -> Some s
+  | i :: rest ->
+    (match sstep w s i with
+     | Some s' -> srun w rest s'
+     | None -> None)
+
+(** val tmp_reg : z -> z option **)
+
+let tmp_reg t0 =
+  nth_error ((Zpos (XO (XO (XI XH)))) :: ((Zpos (XI (XO (XI XH)))) :: ((Zpos
+    (XO (XI (XI XH)))) :: ((Zpos (XI (XI (XI XH)))) :: ((Zpos (XO (XI
+    XH))) :: ((Zpos (XI (XI XH))) :: ((Zpos (XO XH)) :: ((Zpos (XO (XO (XO
+    XH)))) :: ((Zpos (XI (XO (XO XH)))) :: ((Zpos (XO (XI (XO
+    XH)))) :: ((Zpos (XI (XI (XO XH)))) :: []))))))))))) (Z.to_nat t0)
+
+type xloc =
+| LReg of z
+| LCell of z
+| LSlot of z
+
+(** val home : loc -> xloc option **)
+
+let home = function
+| Mem k -> Some (LCell k)
+| Tmp t0 ->
+  if Z.ltb t0 Z0
+  then None
+  else (match tmp_reg t0 with
+        | Some r -> Some (LReg r)
+        | None -> Some (LSlot t0))
+| _ -> None
+
+(** val loc_expr : z -> loc -> expr option **)
+
+let loc_expr w l = match l with
+| MemZero _ -> None
+| Imm c -> Some (e_val (Z.modulo c (Z.pow (Zpos (XO XH)) w)))
+| _ ->
+  (match home l with
+   | Some x ->
+     (match x with
+      | LReg r -> Some (e_var (areg r))
+      | LCell k -> Some (e_var (acell k))
+      | LSlot t0 -> Some (e_var (aslot t0)))
+   | None -> None)
+
+(** val form_spec : z -> binstr -> (xloc * expr) option **)
+
+let form_spec w i =
+  let two = fun d a b f ->
+    match home d with
+    | Some h ->
+      (match loc_expr w a with
+       | Some ea ->
+         (match loc_expr w b with
+          | Some eb -> Some (h, (f ea eb))
+          | None -> None)
+       | None -> None)
+    | None -> None
+  in
+  (match i with
+   | Add (d, a, b) -> two d a b (e_add w)
+   | Sub (d, a, b) -> two d a b (fun x y -> e_add w x (e_neg w y))
+   | Mul (d, a, b) -> two d a b (e_mul w)
+   | Copy (d, a) ->
+     (match home d with
+      | Some h ->
+        (match loc_expr w a with
+         | Some ea -> Some (h, ea)
+         | None -> None)
+      | None -> None)
+   | _ -> None)
+
+(** val part_eqb : expr -> expr -> bool **)
+
+let rec part_eqb a b =
+  match a with
+  | [] -> (match b with
+           | [] -> true
+           | _ :: _ -> false)
+  | p :: a' ->
+    let (c, vs) = p in
+    (match b with
+     | [] -> false
+     | p0 :: b' ->
+       let (c', vs') = p0 in
+       (&&) ((&&) (Z.eqb c c') (list_eqb vs vs')) (part_eqb a' b'))
+
+(** val canon : z -> expr -> expr **)
+
+let canon w e =
+  e_normalize w (sort_parts (map (fun p -> ((fst p), (sort_z (snd p)))) e))
+
+(** val same_poly : z -> expr -> expr -> bool **)
+
+let same_poly w a b =
+  part_eqb (canon w a) (canon w b)
+
+(** val xloc_eqb : xloc -> xloc -> bool **)
+
+let xloc_eqb a b =
+  match a with
+  | LReg x -> (match b with
+               | LReg y -> Z.eqb x y
+               | _ -> false)
+  | LCell x -> (match b with
+                | LCell y -> Z.eqb x y
+                | _ -> false)
+  | LSlot x -> (match b with
+                | LSlot y -> Z.eqb x y
+                | _ -> false)
+
+(** val may_clobber : z -> z -> bool **)
+
+let may_clobber live r =
+  (||) ((||) (Z.eqb r Z0) (Z.eqb r (Zpos XH)))
+    (existsb (fun t0 ->
+      match tmp_reg t0 with
+      | Some r' -> (&&) (Z.eqb r' r) (negb (Z.testbit live t0))
+      | None -> false) (Z0 :: ((Zpos XH) :: ((Zpos (XO XH)) :: ((Zpos (XI
+      XH)) :: ((Zpos (XO (XO XH))) :: ((Zpos (XI (XO XH))) :: ((Zpos (XO (XI
+      XH))) :: ((Zpos (XI (XI XH))) :: ((Zpos (XO (XO (XO XH)))) :: ((Zpos
+      (XI (XO (XO XH)))) :: ((Zpos (XO (XI (XO XH)))) :: []))))))))))))
+
+(** val form_ok : z -> binstr -> z -> xins list -> bool **)
+
+let form_ok w i live code =
+  match form_spec w i with
+  | Some p ->
+    let (dst, want) = p in
+    (match srun w code sst0 with
+     | Some s ->
+       let got =
+         match dst with
+         | LReg r -> sget_r s r
+         | LCell k -> sget_c s k
+         | LSlot t0 -> sget_s s t0
+       in
+       (&&)
+         ((&&)
+           ((&&) (same_poly w got want)
+             (forallb (fun kv ->
+               (||) (xloc_eqb dst (LCell (fst kv)))
+                 (same_poly w (sget_c s (fst kv)) (e_var (acell (fst kv)))))
+               s.sc))
+           (forallb (fun kv ->
+             (||) (xloc_eqb dst (LSlot (fst kv)))
+               (same_poly w (sget_s s (fst kv)) (e_var (aslot (fst kv)))))
+             s.ss))
+         (forallb (fun kv ->
+           (||)
+             ((||) (xloc_eqb dst (LReg (fst kv))) (may_clobber live (fst kv)))
+             (same_poly w (sget_r s (fst kv)) (e_var (areg (fst kv))))) s.sr)
+     | None -> false)
+  | None -> false
 
 type kind =
 | KPrintIr
